@@ -363,6 +363,18 @@ def r2(ctx):
                 continue
             M = src(gens[0].iter.args[0])
             tgt = src(t)
+            if fi.qual == 'calculate_geometry' and tgt.startswith('L[') and \
+                    not any(isinstance(t2, ast.Subscript) and
+                            src(t2.value) == tgt
+                            for t2, _ in U.stores(fi.node)):
+                # a per-gap list of the L table that is filled as a whole
+                # and never stored into element by element: its length is
+                # its range by construction (the anchor is still there; the
+                # values are C08.R10's business)
+                n += 1
+                ctx.ok('C08.R2', fi, st, 'list %s of length %s is filled as '
+                       'a whole, no indexed store' % (tgt, M))
+                continue
             for t2, st2 in U.stores(fi.node):
                 if st2.lineno <= st.lineno or not isinstance(
                         t2, ast.Subscript) or src(t2.value) != tgt or \
@@ -374,6 +386,34 @@ def r2(ctx):
                        isinstance(l.iter, ast.Call) and
                        call_name(l.iter) == 'range']
                 if not lps:
+                    # `for i, e in enumerate(X)`: the counter runs over
+                    # range(len(X)); X allocated by np.zeros(K) has length K
+                    elp = [l for l in U.enclosing_loops(st2)
+                           if isinstance(l, ast.For) and
+                           isinstance(l.target, ast.Tuple) and
+                           len(l.target.elts) == 2 and
+                           src(l.target.elts[0]) == t2.slice.id and
+                           isinstance(l.iter, ast.Call) and
+                           call_name(l.iter) == 'enumerate' and
+                           len(l.iter.args) == 1 and not l.iter.keywords]
+                    if not elp:
+                        continue
+                    X = src(elp[0].iter.args[0])
+                    K = 'len(%s)' % X
+                    for t3, st3 in U.stores(fi.node):
+                        if src(t3) == X and isinstance(st3, ast.Assign) and \
+                                isinstance(st3.value, ast.Call) and \
+                                call_name(st3.value) in ('np.zeros',
+                                                         'np.ones') and \
+                                len(st3.value.args) == 1 and not isinstance(
+                                    st3.value.args[0], ast.Tuple):
+                            K = src(st3.value.args[0])
+                    n += 1
+                    ctx.require(K == M, 'C08.R2', fi, st2,
+                                'list %s has length %s but is indexed by %s '
+                                'over enumerate(%s) of length %s'
+                                % (tgt, M, t2.slice.id, X, K),
+                                key='%s | %s sized %s' % (fi.full, tgt, M))
                     continue
                 hi = lps[0].iter.args[-1] if len(lps[0].iter.args) <= 2 \
                     else lps[0].iter.args[1]
